@@ -8,9 +8,10 @@ import GHEVerif.Model.Report
 import GHEVerif.Lemmas.Report
 import GHEVerif.Lemmas.Search
 import GHEVerif.Props.C01
+import GHEVerif.Lemmas.Pipeline
 
 namespace GHEVerif.C12
-open GHEVerif GHEVerif.Search GHEVerif.Report
+open GHEVerif GHEVerif.Search GHEVerif.Report GHEVerif.Pipeline
 
 /-- `GHE.size` is "set the mid height, solve, assign the returned height, simulate again" and the
     objective is "assign h, simulate, cost, return" — as regenerated from the source. -/
@@ -67,6 +68,32 @@ theorem excess_nonpos_iff (hiA loA mx mn : Rat) :
   constructor
   · intro h; split at h <;> constructor <;> linarith
   · rintro ⟨a, b⟩; split <;> linarith
+
+/-- The same at the level of `GHEManager.find_design` (its regenerated statement list), for every
+    design method and every outcome of the search: the summary written for the returned design reports
+    the height the object has, total drilling = that height × the number of bore-field rows, and the
+    temperatures the object holds were simulated at exactly that height. -/
+theorem find_design_summary_describes_design {α β : Type} (search : SearchRes α β) (E : α → Rat → Rat) (minH maxH : Rat)
+    (f : α → Rat → Rat) (its : α → List Rat) (brent : α → Rat) (d : DesignG α β) (coords : List (Rat × Rat))
+    (hres : findDesignG search E minH maxH f its brent = .design d) :
+    d.st.simAt = some (summary coords d.st).activeLength ∧
+    (summary coords d.st).totalDrilling = d.st.H * ((summary coords d.st).boreRows : Nat) ∧
+    (summary coords d.st).numberOfBoreholes = coords.length := by
+  rw [findDesignG_eq_spec] at hres
+  unfold findDesignSpec at hres
+  cases search with
+  | valueError => simp at hres
+  | pyError e => simp at hres
+  | selected k h p =>
+    simp only at hres
+    cases hs : size (f k) minH maxH (its k) (brent k) { H := h, simAt := none, returned := 0 } with
+    | error e => simp [hs] at hres
+    | ok st =>
+      simp only [hs] at hres
+      injection hres with hres
+      subst hres
+      obtain ⟨h1, _⟩ := size_simAt (f k) minH maxH (its k) (brent k) _ _ hs
+      simp [summary, h1]
 
 /-- Non-vacuity: both ends feasible (clamp at the minimum height 60): the last Brent-stage
     evaluation was at 135, yet the object ends simulated at 60. -/
